@@ -512,6 +512,8 @@ TH = [31, 32, 33, 63, 64, 65, 66, 70, 127, 128, 129, 130, 255, 256, 257, 300, 51
 FAR = [32766, 32767, 32768, 32769, 65535, 65536, 150000, 300001]
 # label characters (no drawing meaning) whose code point truncated to 8 or 16 bits is a blank or a drawing character
 ALIAS = "∠ĭżīįŜşĪůĢŻħĩĺľ\U0001002d\U0001007c\U00010020\U0001002b"
+# the ones without any drawing meaning (`∠` is a glyph of the Unicode table): usable as label characters
+ALIAS_LABELS = ALIAS[1:]
 
 
 def many_groups(rng, n=None):
@@ -531,10 +533,10 @@ def many_groups(rng, n=None):
     return art
 
 
-def staircase(rng, n=None):
+def staircase(rng, n=None, kind=None):
     """an ascending or descending bar chart of `n` bars on a common base, or a comb with `n` teeth"""
     n = n or rng.choice([17, 33, 64, 65, 66, 70, 80])
-    kind = rng.below(3)
+    kind = rng.below(3) if kind is None else kind
     rows = []
     if kind == 2:      # comb: equal teeth
         h = rng.range(1, 3)
@@ -548,13 +550,13 @@ def staircase(rng, n=None):
             tall = (c + 1) if kind == 0 else (n - c)
             row += "| " if (n - r) <= tall else "  "
         rows.append(row.rstrip())
-    rows.append("|_" * n if rng.chance(1, 2) else "+-" * n)
+    rows.append(rng.choice(["|_" * n, ("|_" * n)[:-1], "+-" * n]))
     return "\n".join(rows)
 
 
-def long_things(rng, n=None):
+def long_things(rng, n=None, k=None):
     n = n or rng.choice(TH)
-    k = rng.below(8)
+    k = rng.below(8) if k is None else k
     if k == 0:      # a long quoted label followed by more drawing on the same row
         body = rng.choice(["x", "ab ", "一", "a-|+", "é"])
         q = (body * n)[:n]
@@ -643,3 +645,18 @@ def extremes(rng):
         return alias_labels(rng)
     # an ordinary composed drawing pushed far away
     return far_away(rng, zoo(rng, legend=False, special=False))
+
+
+def extremes_list(rng, n):
+    """`n` extreme drawings; the first ones walk every family once at a size past the usual thresholds, so that a run of
+    any length covers them all"""
+    base = [many_groups(rng, 257), many_groups(rng, 513), many_groups(rng, 300),
+            staircase(rng, 70, 0), staircase(rng, 66, 1), staircase(rng, 80, 2), staircase(rng, 65, 0),
+            long_things(rng, 129, 0), long_things(rng, 300, 0), long_things(rng, 257, 1), long_things(rng, 513, 2),
+            long_things(rng, 257, 3), long_things(rng, 130, 4), long_things(rng, 130, 5), long_things(rng, 300, 6),
+            long_things(rng, 80, 7), deep_nesting(rng)]
+    base += [far_away(rng) for _ in range(6)] + [alias_labels(rng) for _ in range(4)]
+    out = base[:n]
+    while len(out) < n:
+        out.append(extremes(rng))
+    return out
